@@ -50,7 +50,10 @@ def held_symbols(draw, sp):
             vars_ = [v for v in var_n if draw(st.integers(0, 3)) > 0]
             if vars_:
                 out.append([i, list(draw(st.permutations(vars_)))])
-    return list(draw(st.permutations(out))) or None
+    out = list(draw(st.permutations(out)))
+    if out and draw(st.integers(0, 2)) == 0:
+        out.insert(0, ["$same-names", []])  # the caller's symbols all carry the same name
+    return out or None
 
 
 def _by_element(sp):
